@@ -22,11 +22,23 @@ replace_nodes = Unit(
     calls=VCALLS, records=RECORDS, lenient=True, props=("C03",), covers=False,
 )
 
+def _parse_valid(eng, args, kw, env, pc, node):
+    """core.parse(source) raises SyntaxError unless the text is valid Python (ast.parse is the definition of validity): on the path that
+    continues, core.is_valid_python(source) holds.  Assumed contract of core.parse / core.is_valid_python."""
+    pc.append(eng.uf_call("core.is_valid_python", [args[0]], "bool").t)
+    eng.assumptions.add("assumed contract: core.parse(s) returns only if core.is_valid_python(s)")
+    return VObj(fresh("tree", OBJ))
+
+
+from .c_layout import keep_tree  # noqa: E402
+
 fix_import_spacing = Unit(
     "fixes", "fix_import_spacing",
     params={"source": "str"}, returns="str",
-    ensures=[("valid-or-unchanged", "result == source or core.is_valid_python(result)")],
-    calls={"core.is_valid_python": ("uf", "bool")}, records=RECORDS, lenient=True, props=("C03",), covers=False,
+    ensures=[("valid-or-unchanged", "result == source or core.is_valid_python(result)"),
+             ("same-tree-or-unchanged", "result == source or _sources_equivalent(source, result)")],
+    calls={"core.is_valid_python": ("uf", "bool"), "_sources_equivalent": ("uf", "bool"), "core.parse": _parse_valid, "processing.keep_syntax_tree": ("contract", keep_tree)},
+    records=RECORDS, lenient=True, props=("C03", "C11"), covers=False,
 )
 
 
